@@ -138,8 +138,18 @@ L_Chi2 == /\ Chi2MixTail("3", <<"0", "1">>, <<"9/10">>) = "1/10"
 (* the spectrum cache                                                      *)
 (***************************************************************************)
 ModelNames == {"A", "B"}
-Points     == {"p0", "p1"}
-NoCall     == [obj |-> [addr |-> 0, model |-> "A"], pt |-> "p0", served |-> <<"A", "p0">>]
+\* points <<params, ns, grid>>: a base point and one that differs from it in exactly one component, for every component
+\* (PointsAll: the full product, used by the thorough configuration)
+PointsStar == {<<"p0", "n1", "g1">>, <<"p1", "n1", "g1">>, <<"p0", "n2", "g1">>, <<"p0", "n1", "g2">>}
+PointsAll  == {<<p, n, g>> : p \in {"p0", "p1"}, n \in {"n1", "n2"}, g \in {"g1", "g2"}}
+Points     == PointsStar
+\* components of the point the key is built from (the specified key: all of them); the refutation configurations
+\* GodambeMC_cache_drop*.cfg replace it by a key without the grid / sample-size / parameter component
+KeyParts   == KeyPartsFull
+PartsNoGrid   == {1, 2}
+PartsNoNs     == {1, 3}
+PartsNoParams == {2, 3}
+NoCall     == [obj |-> [addr |-> 0, model |-> "A"], pt |-> <<"p0", "n1", "g1">>, served |-> <<"A", <<"p0", "n1", "g1">>>>]
 InitCache == depth = 0 /\ st = [alive |-> {}, held |-> {}, cache |-> <<>>, last |-> NoCall]
 Occupied  == {o.addr : o \in st.alive}
 \* a caller creates a function object (a def, or a transient lambda) at any free address
@@ -147,13 +157,15 @@ Alloc == \E m \in ModelNames : \E a \in Addrs \ Occupied :
             LET o == [addr |-> a, model |-> m] IN st' = [st EXCEPT !.alive = @ \cup {o}, !.held = @ \cup {o}]
 \* a Godambe function evaluates the model through the cache
 Call  == \E o \in st.held : \E pt \in Points :
-            st' = [st EXCEPT !.cache = CachePut(st.cache, o, pt), !.last = [obj |-> o, pt |-> pt, served |-> Served(st.cache, o, pt)]]
+            st' = [st EXCEPT !.cache = CachePutK(st.cache, o, pt, KeyParts),
+                             !.last = [obj |-> o, pt |-> pt, served |-> ServedK(st.cache, o, pt, KeyParts)]]
 \* the caller forgets the object; it is reclaimed unless the cache key keeps it alive
 Drop  == \E o \in st.held :
             st' = [st EXCEPT !.held = @ \ {o}, !.alive = IF Reclaimable(st.cache, o, KeyHoldsRef) THEN @ \ {o} ELSE @]
 NextCache == depth < MaxDepth /\ depth' = depth + 1 /\ (Alloc \/ Call \/ Drop)
 SpecCache == InitCache /\ [][NextCache]_vars
-\* "must never serve one model's spectrum to the other"
+\* "must never serve one model's spectrum to the other" - nor the spectrum of another parameter point, sample size or grid
 L_CacheCoherent == Coherent(st.last.served, st.last.obj, st.last.pt)
-L_CacheEntries  == \A k \in DOMAIN st.cache : st.cache[k][2] = k[2]
+\* every entry holds the spectrum of a point that agrees with its key in the key's components
+L_CacheEntries  == \A k \in DOMAIN st.cache : [c \in DOMAIN k[2] |-> st.cache[k][2][c]] = k[2]
 =============================================================================
